@@ -12,6 +12,15 @@ CLAIMS = {
  "C02": dict(technique="TLC-generated inputs (JsonText/Gen_Deep) replayed under ASan+LSan and the guarded poison hook",
    text="The TLC corpora of C01 plus the deep/uneven-nesting generator (reaching the node-stack capacity rule) are parsed into pool and freeing-allocator documents, fresh and reused across failures, under ASan+LSan and in a production build whose unconstructed node-stack cells are poisoned by hook H1; any signal, sanitizer report or leak is a violation.",
    note="Memory safety is observed by ASan/LSan/SIGSEGV/poison while replaying spec-generated inputs; TLC cannot see a stray load (DESIGN section 6).", ref="4/C02, 6"),
+ "C03": dict(technique="TLC enumeration of valid texts with JsonText!Denote + accessor-walk replay; doubles judged by Rounding!RoundsTo in TLC",
+   text="TLC enumerates valid JSON texts (byte strings, token sequences, every syntax tree up to a node bound over pools of scalar spellings x whitespace layouts incl. 65-space runs, wide containers crossing the 4-chunk node copy) together with the value each denotes (JsonText!Denote); the real document is walked through the accessor API only and must be structurally identical (kinds, order, duplicates, decoded bytes, exact integers); every double met is validated by TLC against the exact round-to-nearest-even relation.",
+   note="Trusted: JsonText/NumberLex/Rounding as the statement of what a text denotes; harness/walk.h (accessor walk).", ref="4/C03"),
+ "C05": dict(technique="TLC enumeration of string literals (escape kind x block offset, all \\u values, surrogate grid) judged by JsonText!DecodeString + replay",
+   text="TLC builds literals quote filler^a item1 filler^b item2 filler^c quote over every escape kind, raw special byte and ill-formed escape with offsets that walk the items across 16/32-byte blocks, all 65536 \\uXXXX values, a surrogate boundary grid (thorough: all 1024x1024 pairs), each as root/element/key/value; the spec-level invariant ContextIndependent is model-checked; each case is replayed at every alignment 0..32 in 3-6 builds and accept/reject, decoded bytes and fault class are compared with DecodeString.",
+   note="Trusted: JsonText!DecodeString. The on-demand key decode path is covered by C10's corpora.", ref="4/C05"),
+ "C15": dict(technique="TLC-generated corpora replayed in six binaries {prod,asan}x{avx2,sse,dyn}; per-input digests compared",
+   text="Every text of the TLC corpora (byte strings, tokens, values, strings, mutants, deep nesting) is parsed in the six builds; the digest (accepted?, error class unless the R-model fault is inside a string, accessor-walk hash, Dump hash) must be identical across binaries, and an oracle failure shown by only some builds is a disagreement. The R-models do not mention the vector width, so the specified result is configuration independent by construction.",
+   note="Runtime dispatch resolves to the AVX2 clones on this CPU; the SSE clones are exercised only by the static build.", ref="4/C15"),
 }
 
 def main():
